@@ -9,10 +9,11 @@ RULE = ("fuse / fuse_os / fuse_ss for the 4 operators: guard lattice (vacuous, d
         "(exhaustive den 4 for n=2,3 in thorough; random up to 1/64), uncertainty sweeps 1e-300..1e-3 and 1-1e-3..1-2^-52, "
         "arbitrary floats; n=1..4; families A/M/D/N, styles o/r/asg; f32+f64. non-trivial = value returned, not both operands vacuous")
 EXHAUSTIVE = {}
-LEVEL_TEXT = ("Theorems over the exact model for every n and rational well-formed operands: fusion is total, the fused simplex is "
-              "well-formed, every fused base-rate entry lies between the operands' entries and the base rate sums to 1 (up to the "
-              "per-entry ulps shortcut). Tied to FuseOp::fuse / fuse_assign by the correspondence check over the guard lattice; "
-              "well-formedness and betweenness are evaluated on the implementation's outputs (catch_unwind observes panics).")
+LEVEL_TEXT = ("Theorem: on well-formed rational operands outside the tolerance bands the model's fuse equals the executable evidence-space "
+              "specification SLV.Oracle.fuseSpec (Dirichlet evidence added / averaged / confidence-weighted; one dogmatic operand decides; "
+              "two dogmatic -> mean; two vacuous -> vacuous; base rates confidence-weighted or averaged; ECm = uncertainty-maximised ACm). "
+              "The same specification is evaluated in exact rationals on the inputs of every generated case and compared with the "
+              "implementation's output (independent oracle), over the guard lattice, grids and floats.")
 
 
 def nontrivial(r):
